@@ -52,7 +52,8 @@ type server struct {
 	lastCid  int32
 	haveCid  bool
 
-	frames    []frameInfo // by serial-1
+	fmu       sync.Mutex
+	frames    []frameInfo // by serial-1 (guarded by fmu)
 	faulted   bool
 	maxOnWire int // measured at hold steps before any fault
 	holds     int
@@ -146,9 +147,11 @@ func (s *server) body(key int16, token, serial int) []byte {
 
 // mkFrame builds a well-formed frame for request kind `key`/header version hv with the given header id.
 func (s *server) mkFrame(key int16, hv int, cid int32, token int) []byte {
+	s.fmu.Lock()
 	serial := len(s.frames) + 1
 	body := s.body(key, token, serial)
 	s.frames = append(s.frames, frameInfo{body: body, cid: cid, token: token})
+	s.fmu.Unlock()
 	n := 4 + len(body)
 	if hv >= 1 {
 		n++
@@ -158,6 +161,22 @@ func (s *server) mkFrame(key int16, hv int, cid int32, token int) []byte {
 		f = append(f, 0)
 	}
 	return append(f, body...)
+}
+
+// frame returns the record of the frame with the given serial number.
+func (s *server) frame(serial int) (frameInfo, bool) {
+	s.fmu.Lock()
+	defer s.fmu.Unlock()
+	if serial < 1 || serial > len(s.frames) {
+		return frameInfo{}, false
+	}
+	return s.frames[serial-1], true
+}
+
+func (s *server) nFrames() int {
+	s.fmu.Lock()
+	defer s.fmu.Unlock()
+	return len(s.frames)
 }
 
 func hlen(hv int) int {
